@@ -148,7 +148,8 @@ def run(R, only=None):
         for lm in lits[:3]:
             expr = sql_of(subst(l, {**m, **lm}), tys)
             q = f"select i1, i2, i3, b1, b2, {expr} from t"
-            jobs.append({"engine": "mem", "steps": setup + [{"sql": q}, {"sql": "pragma disable_optimizer"}, {"sql": q}]})
+            jobs.append({"engine": "mem", "steps": setup + [{"sql": q}, {"sql": "pragma disable_optimizer"}, {"sql": q},
+                                                            {"sql": "pragma enable_optimizer"}, {"disable_rules": sorted(allowed)}, {"sql": q}]})
             meta.append((name, q, subst(l, {**m, **lm})))
     outs = run_harness("sql", jobs, jobs=16)
     refuted_names = set(info.get("expr_refuted", {}))
@@ -159,7 +160,7 @@ def run(R, only=None):
         if not isinstance(o, list) or len(o) < len(j["steps"]):
             R.property_fails("KF_C14_overflow_panics" if "overflow" in json.dumps(o) else None, f"C01 instance of rule {name} `{q}` aborted: {json.dumps(o)[-160:]}", rep)
             continue
-        on, off = o[-3], o[-1]
+        on, off, on2 = o[-6], o[-4], o[-1]
         if "ok" not in on or "ok" not in off:
             # (when the un-optimised plan itself does not execute — e.g. no kernel for a NULL-typed operand — there is
             #  no reference answer: that is C17's subject)
@@ -180,8 +181,13 @@ def run(R, only=None):
                         yield from subterms(y)
             hit = name in refuted_names or any(match(p, st, {}) for p in parsed.values() for st in subterms(term))
             diff = [(x, y) for x, y in zip(a, b) if x != y][:2]
+            # the known finding is identified by its rules: without them the difference has to disappear
+            a2 = sorted(json.dumps(r) for r in on2["ok"][0]["rows"]) if "ok" in on2 else None
+            note = ""
+            if hit and a2 != b:
+                hit, note = False, " — and the difference persists when the optimiser runs without the rules of the known finding"
             R.property_fails("KF_C01_null_unsound_expr_rules" if hit else None,
-                             f"C01 `{q}` (an instance of rule {name}) differs with the optimiser on / off, e.g. {diff}", rep)
+                             f"C01 `{q}` (an instance of rule {name}) differs with the optimiser on / off, e.g. {diff}{note}", rep)
     kf_rules = sorted({r for f in known_findings("C01") if f.get("status") == "open" for r in f.get("rules", [])})
     tail_steps = lambda q: [{"explain": q}, {"sql": q}, {"sql": "pragma disable_optimizer"}, {"sql": q},
                             {"sql": "pragma enable_optimizer"}, {"disable_rules": kf_rules}, {"sql": q}]
@@ -310,12 +316,12 @@ def run(R, only=None):
             elif {"null-rules", "conflict"} & c["tags"]:
                 klass = "KF_C01_null_unsound_expr_rules"
             note = ""
-            if klass in ("KF_C01_outer_join_condition_pushdown", "KF_C01_filter_below_limit"):
+            if klass == "KF_C01_outer_join_condition_pushdown":
                 # a known finding is identified by its rules: the difference must disappear when the optimiser runs without them
+                # (not applied to the filter-below-LIMIT shapes: ORDER BY x LIMIT n over tied keys keeps different tied rows in the
+                #  optimised top-N and in the un-optimised order + limit whatever the rules)
                 a2 = sorted(json.dumps(r) for r in on2["ok"][0]["rows"]) if "ok" in on2 else None
-                if a2 != sorted(b) and "limit" not in c["q"]:
-                    klass, note = None, " — and it persists when the optimiser runs without the rules of the known findings"
-                elif "limit" in c["q"] and (a2 is None or len(a2) != len(b)):
+                if a2 != sorted(b) and not (a2 is None and ({"right", "full"} & c["tags"])):     # (nested-loop RIGHT / FULL: not implemented)
                     klass, note = None, " — and it persists when the optimiser runs without the rules of the known findings"
                 else:
                     kf_attr[0] += 1
